@@ -12,7 +12,7 @@ from vlib import common, realrun, workload
 
 def make_case(r):
     kind = r.choice(['eq', 'let', 'dt', 'empty', 'general', 'fresh', 'fresh',
-                     'defs'])
+                     'defs', 'lets'])
     extra = []
     if kind == 'eq':
         lines = ['(declare-const a Int)', '(declare-const b Int)',
@@ -42,6 +42,16 @@ def make_case(r):
                  '--replace-by-variable', '--substitute-children']
         if r.random() < 0.5:
             extra += ['--erase-node']
+    elif kind == 'lets':
+        # many binders, parallel ddmin, a command that accepts nothing but
+        # substitutions into let bodies (the text may only grow): the last
+        # accepted step of a granularity shares nodes, and the next
+        # granularity ships its input to the workers again
+        n = r.randint(10, 16)
+        lines = ['(declare-const a Int)'] + [
+            f'(assert (let ((v{i} (+ a {i}))) (> (* v{i} v{i}) (- v{i} 1))))'
+            for i in range(n)] + ['(check-sat)']
+        extra = ['--let-substitution'] if r.random() < 0.5 else []
     elif kind == 'defs':
         # inlining after other accepted steps: the body of an untouched
         # define-fun command is inserted into another command
@@ -65,6 +75,9 @@ def make_case(r):
     rules, pred = workload.pick_spec(r, text, families=['all', 'has',
                                                         'count', 'ntok',
                                                         'hash'])
+    if kind == 'lets':
+        ntok = len(workload.tokens_of(text))
+        rules = realrun.simple_spec(f'ntok>={ntok} count:let>={n} &')
     if kind == 'defs':
         # f defined and used, or its body present twice (inlined)
         rules = realrun.simple_spec(
@@ -76,6 +89,9 @@ def make_case(r):
             f'scoped count:assert>={k} & count:%2B>=1 ! &')
     strat = r.choice(workload.STRATEGIES)
     j = r.choice([1, 2, 4])
+    if kind == 'lets':
+        strat = r.choice(['ddmin', 'hybrid'])
+        j = r.choice([2, 2, 3])
     opts = ['--strategy', strat, '-j', str(j), '--timeout', '20']
     if r.random() < 0.5:
         opts += ['--arithmetic', '--datatypes']
@@ -118,6 +134,28 @@ def shard(args):
                         f'which {e["dup_ids"]} node id(s) occur at more than '
                         f'one position', w)
                     break
+            for e in run.events:
+                if e['ev'] == 'monitor_error':
+                    res.count('monitor_errors')
+                    res.add_set('monitor_errors', e['error'][:100])
+                if e['ev'] != 'gen_shipped':
+                    continue
+                res.count('shipped_inputs_checked')
+                # identities have to be pairwise distinct where a round is
+                # generated (TaskGenerator.__init__); after an acceptance
+                # inside a round (update) the adopted input legitimately
+                # shares nodes until the round ends and is re-duplicated
+                if (e['dup_ids'] and e['where'].endswith('__init__')) or \
+                        not e['same_ids'] or not e['same_tokens']:
+                    w = dict(desc)
+                    w['event'] = e
+                    res.violation(
+                        'input-shipped-to-workers-is-not-the-working-input',
+                        f'at {e["where"]} the input pickled for the workers '
+                        f'has {e["dup_ids"]} repeated node id(s), same '
+                        f'tokens: {e["same_tokens"]}, same identities as '
+                        f'the input of the round: {e["same_ids"]}', w)
+                    break
             for e in reds:
                 res.cmax('max_duplicates_before_reduplicate',
                          e['dups_before'])
@@ -139,6 +177,11 @@ def run(ctx):
     shards = [{'shard': i, 'n': n} for i in range(common.NCPU)]
     results = common.run_shards('checks.c13_real', shards, timeout=3400)
     common.merge_shards(ctx, results)
+    if ctx.counters.get('monitor_errors', 0):
+        ctx.inconclusive_because('a monitor failed: ' +
+                                 str(ctx.extra.get('monitor_errors')))
+    if ctx.counters.get('shipped_inputs_checked', 0) == 0:
+        ctx.inconclusive_because('no input shipped to workers was observed')
     if ctx.counters.get('gen_events', 0) == 0:
         ctx.inconclusive_because('no generator construction was observed')
     if ctx.counters.get('runs_where_reduplicate_removed_duplicates', 0) == 0:
